@@ -4,7 +4,7 @@
 (*                                                                           *)
 (* Total monitor over the events of                                          *)
 (*  (a) one local connection served by socks5.Server / http.Server:          *)
-(*      Conn, AuthFunc, HyTCP, HyUDP, UpWrite, ConnDone                      *)
+(*      Conn, AuthFunc, HyTCP, HyUDP, UpWrite, Down, ConnDone                *)
 (*  (b) the shared-port mux: MuxListen, LoopStart, SubClose, MuxConn,        *)
 (*      Accepted, HRead, SrvClosed, Quiesce.                                 *)
 (* Clauses (violations):                                                     *)
@@ -13,7 +13,9 @@
 (*             connection for credentials that connection presented          *)
 (*  Intact     what is written upstream is, at every moment, a prefix of the *)
 (*             bytes the client sent behind the negotiation / CONNECT header *)
-(*             and, once the client's stream has ended, all of them; what a  *)
+(*             and, once the client's stream has ended, all of them, also    *)
+(*             while the upstream side sends in the other direction (whose   *)
+(*             bytes must reach the client uncorrupted); what a              *)
 (*             handler reads from a connection the mux handed over is the    *)
 (*             client's stream from its first byte on                        *)
 (*  OneHandler a connection that delivered its first byte is handed to at    *)
@@ -83,6 +85,12 @@ DoneStep(m, e, ln) ==
                        <<"DRIFT_NoDial", c.expectDial /\ ~c.dialed>>,
                        <<"DRIFT_Dial", ~c.expectDial /\ c.dialed>> >>)]
 
+\* Down: conn, sent, got, long, prefixOk   (what the local client received behind the server's replies while the
+\* upstream side was sending `sent`; the tunnel may be torn down before everything arrived, so only corruption counts.
+\* long payloads: sent = got = <<>> and the harness did the prefix comparison)
+DownStep(m, e, ln) ==
+  [m EXCEPT !.viol = V(@, e, ln, "Intact", IF e.long THEN ~e.prefixOk ELSE ~IsPrefix(e.got, e.sent))]
+
 \* ---------------------------------------------------------------- shared port
 KindOf(b) == IF b = 5 THEN "socks" ELSE "http"
 
@@ -138,6 +146,7 @@ MonStep(m, e, ln) ==
     [] e.ev = "HyUDP"    -> DialStep(m, e, ln)
     [] e.ev = "UpWrite"  -> UpStep(m, e, ln)
     [] e.ev = "ConnDone" -> DoneStep(m, e, ln)
+    [] e.ev = "Down"     -> DownStep(m, e, ln)
     [] e.ev = "Panic"    -> [m EXCEPT !.viol = V(@, e, ln, "Panic", TRUE)]
     [] OTHER             -> MuxStep(m, e, ln)
 ===========================================================================
